@@ -2338,11 +2338,11 @@ func sectionRestartLeft() {
 
 func sectionUnflushed() {
 	sec := res.Section("unflushed", "spec-search",
-		"a server with a long flush period (WriteFlushMs 1500); one write request into a NEW partition is acknowledged; a TRUNCATE follows at once - without bounds, with a MAXSIZE the partition is far below, as DRYRUN + real run; after the flush period the partition must exist and hold the acknowledged events (a partition is dropped only when it holds no data; acknowledged events are data)")
+		"a server with a long flush period (WriteFlushMs 700); one write request into a NEW partition is acknowledged; a TRUNCATE follows at once - without bounds, with a MAXSIZE the partition is far below, as DRYRUN + real run; after the flush period the partition must exist and hold the acknowledged events (a partition is dropped only when it holds no data; acknowledged events are data)")
 	defer res.Done(sec)
 	for _, form := range []string{"", " maxsize 100000", " before \"1\""} {
 		dir := lrsrv.NewDir()
-		srv, err := lrsrv.Start(dir, lrsrv.Opts{MaxChunkSize: 4000, WriteFlushMs: 1500})
+		srv, err := lrsrv.Start(dir, lrsrv.Opts{MaxChunkSize: 4000, WriteFlushMs: 700})
 		if err != nil {
 			res.Note("unflushed: %v", err)
 			os.RemoveAll(dir)
@@ -2358,11 +2358,11 @@ func sectionUnflushed() {
 		q := "truncate {" + tags + "}" + form
 		dry, _ := srv.Exec(strings.Replace(q, "truncate ", "truncate dryrun ", 1))
 		out, xerr := srv.Exec(q)
-		time.Sleep(1800 * time.Millisecond)
+		time.Sleep(900 * time.Millisecond)
 		settle(srv, tags, -1)
 		after := observe(srv, tags)
 		res.Eval(sec, q)
-		in := map[string]interface{}{"flush_ms": 1500, "write": "3 events into the new partition " + tags + ", acknowledged", "then_at_once": []string{strings.Replace(q, "truncate ", "truncate dryrun ", 1), q}, "then": "wait 1.8 s, select"}
+		in := map[string]interface{}{"flush_ms": 700, "write": "3 events into the new partition " + tags + ", acknowledged", "then_at_once": []string{strings.Replace(q, "truncate ", "truncate dryrun ", 1), q}, "then": "wait 0.9 s, select"}
 		rs, rerr := readSeqs(after.Read)
 		if werr == nil && wr.Err == nil && (xerr != nil || !after.Exists || rerr != "" || fmt.Sprint(rs) != "[1 2 3]") {
 			// class of finding F76: the statement ran while the partition's only data was acknowledged but not yet flushed
